@@ -370,6 +370,11 @@ def h_state_ops(env, N, r, op):
             return (c.gs, c.ps, c.r)
         if op == 'entropy':
             return (s.entropy([0]),)
+        if op.startswith('entropy_mask'):
+            # the region as a boolean mask in the package's own array type (numpy bool array / torch bool tensor)
+            pat = {'entropy_mask_first': [True] + [False] * (N - 1), 'entropy_mask_last': [False] * (N - 1) + [True],
+                   'entropy_mask_ends': [True] + [False] * (N - 2) + [True] if N > 1 else [True], 'entropy_mask_none': [False] * N}[op]
+            return (s.entropy(conv(np.array(pat, dtype=bool), 'b') if conv is not plain_copy else np.array(pat, dtype=bool)),)
         if op == 'to_map':
             m = s.to_map()
             return (m.gs, m.ps)
@@ -394,14 +399,18 @@ def h_state_ops(env, N, r, op):
         env.assume(ref.valid_tableau(g2, p2, N), 'Inv second state')
     if op == 'get_prob_then_use':
         bits = env.bits('readout', (N,))
-    rn = env.run(lambda: run(Sn, Pn, lambda a: a.copy()))
-    rt = env.run(lambda: run(St, Pt, lambda a: tt(env, a)))
+    rn = env.run(lambda: run(Sn, Pn, plain_copy))
+    rt = env.run(lambda: run(St, Pt, lambda a, k='f': tt(env, a, k)))
     env.goal('numpy_side_no_exception', b_not(rn.raised))
     env.goal('torch_side_no_exception', b_not(rt.raised))
     if rn.value is None or rt.value is None:
         return
     for k, (a, b) in enumerate(zip(rn.value, nn(env, rt.value))):
         env.goal('same_component%d' % k, same(np.asarray(a) if isinstance(a, np.ndarray) else a, b))
+
+
+def plain_copy(a, k='f'):
+    return a.copy()
 
 
 def h_constructors(env, N, which):
@@ -500,6 +509,12 @@ def jobs(tier):
             for name in ('stabilizer_expect', 'vectorizable_stabilizer_expect'):
                 J.append(dict(harness=('c13', 'h_state_kernel'), params=dict(N=3, r=r, name=name), timeout_s=900, max_paths=5000, cost=50))
     # entropy of mixed states needs three qubits to have a generator outside the region next to one across the cut
+    for N in (2, 3):
+        for r in (0, 1):
+            for op in ('entropy_mask_first', 'entropy_mask_last', 'entropy_mask_ends', 'entropy_mask_none'):
+                if N == 3 and not (op == 'entropy_mask_ends' and r == 1):
+                    continue
+                J.append(dict(harness=('c13', 'h_state_ops'), params=dict(N=N, r=r, op=op), timeout_s=600, max_paths=5000, cost=20 * N))
     for r in (0, 1, 2):
         J.append(dict(harness=('c13', 'h_state_kernel'), params=dict(N=3, r=r, name='stabilizer_entropy'), timeout_s=600, max_paths=5000, cost=40))
         J.append(dict(harness=('c13', 'h_state_ops'), params=dict(N=3, r=r, op='entropy'), timeout_s=600, max_paths=5000, cost=40))
